@@ -286,6 +286,16 @@ where
     let scoped = st.rng.coin(1, 3);
     flush(st);
     let outer = S::MIN_ALIGN;
+    // seam scenario: two tiny, unaligned blocks right before a region with a larger alignment, then
+    // reclaim operations on the older of the two from inside (its end, rounded up to the new
+    // alignment, may coincide with the bump position although it is not the newest block)
+    if n > outer && st.rng.coin(1, 2) && !scope.is_claimed() {
+        for _ in 0..2 {
+            let size = st.rng.range(1, 7) as usize;
+            guarded_exec(st, scope, false, &Op::Alloc { w: 0, size, align: 1, cls: 0, ty: 0, len: 0 });
+        }
+        st.second_newest = 2;
+    }
     let stp: *mut St = st;
     let xsp: *mut Xs = xs;
     let mut ncp = st.cp_store.len();
@@ -702,7 +712,7 @@ fn main() {
         let big = r.coin(1, 5);
         let mut st = St {
             out: String::new(), rng: r, script: None, blocks: vec![], next_id: 0, seed_ctr: 0, epoch: 0,
-            cp_store: vec![], next_cp: 0, ops_left: ops, depth: 0, max_depth: 6, fail_rate, big, xlines: 0, dead: false, h: 0,
+            cp_store: vec![], next_cp: 0, ops_left: ops, depth: 0, max_depth: 6, fail_rate, big, xlines: 0, dead: false, second_newest: 0, h: 0,
         };
         // a run is reproduced exactly by `--cfg idx --run-seed sd --runs 1 --ops ops`
         let _ = writeln!(st.out, "RUN {i} {idx} {sd} {og} {ops}");
